@@ -503,7 +503,7 @@ type ContractFile struct {
 }
 
 var clauseKeywords = map[string]bool{"requires": true, "ensures": true, "modifies": true, "loop": true, "prop": true, "nopanic": true,
-	"trusted": true, "defines": true, "covers": true, "func": true, "extern": true, "pure": true, "rec": true, "uninterp": true, "axiom": true, "lemma": true,
+	"trusted": true, "defines": true, "trusted-ensures": true, "covers": true, "func": true, "extern": true, "pure": true, "rec": true, "uninterp": true, "axiom": true, "lemma": true,
 	"ghost": true, "effectfree": true, "type-invariant": true, "relayed": true, "exempt": true, "import": true, "inline": true, "assert": true, "assert-call": true}
 
 // ParseContractFile reads //@ lines from a file.
@@ -591,7 +591,7 @@ func ParseContractText(text, path, pkg string) (*ContractFile, error) {
 			cur.Trusted = true
 		case "inline":
 			cur.Inline = true
-		case "requires", "ensures", "covers", "assert", "defines":
+		case "requires", "ensures", "covers", "assert", "defines", "trusted-ensures":
 			if cur == nil {
 				return nil, fail(l.n, "%s outside func", kw)
 			}
@@ -606,6 +606,9 @@ func ParseContractText(text, path, pkg string) (*ContractFile, error) {
 				cur.Ensures = append(cur.Ensures, c)
 			case "defines":
 				c.Kind = "defines"
+				cur.Ensures = append(cur.Ensures, c)
+			case "trusted-ensures":
+				c.Kind = "trusted-ensures"
 				cur.Ensures = append(cur.Ensures, c)
 			case "covers":
 				cur.Covers = append(cur.Covers, c)
